@@ -407,4 +407,150 @@ theorem frontEnd_cases (mode : Mode) (x : U128) (f : UInt32) (k : UInt64 → UIn
             simp only [decide_eq_true_eq]
             split <;> omega
 
+/-! ## 3. The digit count -/
+
+/-! ### the `f64` conversion trick -/
+
+/-- the biased-exponent field of the `f64` nearest to an integer below 2^53 (the conversion is exact there) is
+`⌊log₂ n⌋ + 1023` -/
+theorem floatBits_exp (n : Nat) (h0 : 0 < n) (h1 : n < 2^53) :
+    floatBitsOfNat 52 1023 n / 2^52 = Nat.log2 n + 1023 ∧ floatBitsOfNat 52 1023 n < 2^63 := by
+  have hne : n ≠ 0 := by omega
+  have hl : Nat.log2 n ≤ 52 := by
+    have := (Nat.log2_lt hne).2 h1
+    omega
+  have lo := Nat.log2_self_le hne
+  have hi := @Nat.lt_log2_self n
+  unfold floatBitsOfNat
+  rw [if_neg hne]
+  simp only [hl, if_true]
+  have e : 2 ^ 52 = 2 ^ Nat.log2 n * 2 ^ (52 - Nat.log2 n) := by rw [← Nat.pow_add]; congr 1; omega
+  have a1 : 2 ^ 52 ≤ n * 2 ^ (52 - Nat.log2 n) := by rw [e]; exact Nat.mul_le_mul_right _ lo
+  have a2 : n * 2 ^ (52 - Nat.log2 n) < 2 ^ 53 := by
+    have : 2 ^ 53 = 2 ^ (Nat.log2 n + 1) * 2 ^ (52 - Nat.log2 n) := by rw [← Nat.pow_add]; congr 1; omega
+    rw [this]
+    exact Nat.mul_lt_mul_of_pos_right hi (Nat.pow_pos (by decide))
+  generalize n * 2 ^ (52 - Nat.log2 n) = m at a1 a2
+  generalize Nat.log2 n = l at hl
+  omega
+
+/-- the bit-length expression of the code: `k + (biased exponent of (double) w − 1023)` is `k + ⌊log₂ w⌋` -/
+theorem f64_trick (w : UInt64) (k : UInt32) (h0 : 0 < w.toNat) (h1 : w.toNat < 2^53) (hk : k.toNat ≤ 65) :
+    (UInt64.ofInt (toI (k + ((UInt32.ofInt (toI ((F64U.ofU64 (UInt64.ofInt (toI w))).bits >>> 52)) &&& 2047) - 1023)))).toNat
+      = k.toNat + Nat.log2 w.toNat := by
+  obtain ⟨e1, e2⟩ := floatBits_exp w.toNat h0 h1
+  have hl : Nat.log2 w.toNat < 53 := (Nat.log2_lt (by omega)).2 h1
+  have hw : UInt64.ofInt (toI w) = w := by
+    apply UInt64.toNat_inj.1
+    show (UInt64.ofInt (w.toNat : Int)).toNat = _
+    rw [ofInt_natCast64]; have := w.toNat_lt; omega
+  rw [hw]
+  have hb : ((F64U.ofU64 w).bits >>> 52).toNat = Nat.log2 w.toNat + 1023 := by
+    unfold F64U.ofU64
+    rw [UInt64.toNat_shiftRight, UInt64.toNat_ofNat', Nat.mod_eq_of_lt (by omega), Nat.shiftRight_eq_div_pow]
+    exact e1
+  have h32 : (UInt32.ofInt (toI ((F64U.ofU64 w).bits >>> 52))).toNat = Nat.log2 w.toNat + 1023 := by
+    show (UInt32.ofInt (((F64U.ofU64 w).bits >>> 52).toNat : Int)).toNat = _
+    rw [ofInt_natCast32, hb]; omega
+  have hm : ((UInt32.ofInt (toI ((F64U.ofU64 w).bits >>> 52)) &&& 2047) - 1023).toNat = Nat.log2 w.toNat := by
+    rw [UInt32.toNat_sub, UInt32.toNat_and, h32, show (2047 : UInt32).toNat = 2^11 - 1 from rfl,
+      Nat.and_two_pow_sub_one_eq_mod, show (1023 : UInt32).toNat = 1023 from rfl]
+    omega
+  show (UInt64.ofInt ((k + ((UInt32.ofInt (toI ((F64U.ofU64 w).bits >>> 52)) &&& 2047) - 1023)).toNat : Int)).toNat = _
+  rw [ofInt_natCast64, UInt32.toNat_add, hm]
+  omega
+
+
+theorem log2_eq_of {n k : Nat} (h1 : 2^k ≤ n) (h2 : n < 2^(k+1)) : Nat.log2 n = k :=
+  (Nat.log2_eq_iff (by have := Nat.pow_pos (n := k) (show 0 < 2 by decide); omega)).2 ⟨h1, h2⟩
+
+theorem log2_shift (n k : Nat) (h : 2^k ≤ n) : Nat.log2 (n / 2^k) + k = Nat.log2 n := by
+  have hk : 0 < 2^k := Nat.pow_pos (by decide)
+  have hne : n ≠ 0 := by omega
+  have hq : n / 2^k ≠ 0 := by
+    have := Nat.div_pos h hk
+    omega
+  have lo := Nat.log2_self_le hq
+  have hi := @Nat.lt_log2_self (n / 2^k)
+  symm
+  apply log2_eq_of
+  · rw [Nat.pow_add]
+    calc 2 ^ (n / 2^k).log2 * 2^k ≤ n / 2^k * 2^k := Nat.mul_le_mul_right _ lo
+      _ ≤ n := Nat.div_mul_le_self n (2^k)
+  · rw [show (n / 2^k).log2 + k + 1 = ((n / 2^k).log2 + 1) + k by omega, Nat.pow_add]
+    exact (Nat.div_lt_iff_lt_mul hk).1 hi
+
+/-- **the bit length**: for a coefficient `0 < C < 2^113` the three-way `f64` trick yields `⌊log₂ C⌋ + 1` -/
+theorem nrBits_spec (C : U128) (h0 : 0 < val128 C) (h1 : val128 C < 2^113) :
+    (nrBits C).toNat = Nat.log2 (val128 C) + 1 := by
+  have hl := C.w0.toNat_lt
+  unfold val128 at h0 h1 ⊢
+  unfold nrBits
+  by_cases a : C.w1 = 0
+  · rw [if_pos (by simpa using a)]
+    have a' : C.w1.toNat = 0 := by rw [a]; rfl
+    rw [a'] at h0 h1 ⊢
+    simp only [Nat.zero_mul, Nat.zero_add] at h0 h1 ⊢
+    by_cases b : C.w0 ≥ 0x20000000000000
+    · rw [if_pos (by simpa using b)]
+      have b' : 2^53 ≤ C.w0.toNat := by
+        have := UInt64.le_iff_toNat_le.1 b
+        exact this
+      have hs : (C.w0 >>> 32).toNat = C.w0.toNat / 2^32 := high32 C.w0
+      rw [f64_trick (C.w0 >>> 32) 33 (by rw [hs]; omega) (by rw [hs]; omega) (by decide), hs,
+        show (33 : UInt32).toNat = 33 from rfl, ← log2_shift C.w0.toNat 32 (by omega)]
+      omega
+    · rw [if_neg (by simpa using b)]
+      have b' : C.w0.toNat < 2^53 := by
+        have := UInt64.lt_iff_toNat_lt.1 (UInt64.not_le.1 b)
+        exact this
+      rw [f64_trick C.w0 1 h0 b' (by decide), show (1 : UInt32).toNat = 1 from rfl]
+      omega
+  · rw [if_neg (by simpa using a)]
+    have a' : 0 < C.w1.toNat := by
+      rcases Nat.eq_zero_or_pos C.w1.toNat with h | h
+      · exact absurd (UInt64.toNat_inj.1 (by rw [h]; rfl)) a
+      · exact h
+    rw [f64_trick C.w1 65 a' (by omega) (by decide), show (65 : UInt32).toNat = 65 from rfl,
+      ← log2_shift (C.w1.toNat * 2^64 + C.w0.toNat) 64 (by omega)]
+    rw [show (C.w1.toNat * 2^64 + C.w0.toNat) / 2^64 = C.w1.toNat by omega]
+    omega
+
+
+/-! ### the table lookup -/
+
+open Dec.TableFacts in
+/-- row `i` of `BID_NR_DIGITS`, word by word (closed form of `DecProofs.TableFacts.F_BID_NR_DIGITS`) -/
+theorem nr_get (i : Nat) (hi : i < 113) :
+    Dec.Gen.BID_NR_DIGITS[i * 4 + 0]? = (nrRow i)[0]? ∧ Dec.Gen.BID_NR_DIGITS[i * 4 + 1]? = (nrRow i)[1]? ∧
+    Dec.Gen.BID_NR_DIGITS[i * 4 + 2]? = (nrRow i)[2]? ∧ Dec.Gen.BID_NR_DIGITS[i * 4 + 3]? = (nrRow i)[3]? := by
+  have h := fun j (hj : j < 4) =>
+    getElem?_flatMap_const_width nrRow 4 (fun _ => rfl) (List.range 113) i j i (List.getElem?_range hi) hj
+  rw [BID_NR_DIGITS_rows]
+  exact ⟨h 0 (by decide), h 1 (by decide), h 2 (by decide), h 3 (by decide)⟩
+
+theorem tblDD_of (t : List Nat) (i : UInt64) (a b c d : Nat) (h0 : t[i.toNat * 4 + 0]? = some a) (h1 : t[i.toNat * 4 + 1]? = some b)
+    (h2 : t[i.toNat * 4 + 2]? = some c) (h3 : t[i.toNat * 4 + 3]? = some d) :
+    tblDD t i = .ok ⟨UInt32.ofNat a, UInt64.ofNat b, UInt64.ofNat c, UInt32.ofNat d⟩ := by
+  unfold tblDD
+  rw [Nat.mul_comm 4 i.toNat]
+  rw [Nat.add_zero] at h0
+  rw [h0, h1, h2, h3]
+
+open Dec.TableFacts in
+theorem tblDD_nr (i : UInt64) (hi : i.toNat < 113) :
+    tblDD Dec.Gen.BID_NR_DIGITS i = .ok ⟨
+      UInt32.ofNat (if ndigitsSlow (2 ^ i.toNat) = ndigitsSlow (2 ^ (i.toNat + 1) - 1) then ndigitsSlow (2 ^ i.toNat) else 0),
+      UInt64.ofNat (10 ^ ndigitsSlow (2 ^ i.toNat) / 2 ^ 64), UInt64.ofNat (10 ^ ndigitsSlow (2 ^ i.toNat) % 2 ^ 64),
+      UInt32.ofNat (ndigitsSlow (2 ^ i.toNat))⟩ := by
+  obtain ⟨g0, g1, g2, g3⟩ := nr_get _ hi
+  exact tblDD_of _ _ _ _ _ _ (g0.trans (by simp only [nrRow, List.getElem?_cons_zero])) 
+    (g1.trans (by simp only [nrRow, List.getElem?_cons_zero, List.getElem?_cons_succ])) 
+    (g2.trans (by simp only [nrRow, List.getElem?_cons_zero, List.getElem?_cons_succ])) 
+    (g3.trans (by simp only [nrRow, List.getElem?_cons_zero, List.getElem?_cons_succ])) 
+
+theorem int32_of_small (d : Nat) (h : d < 2^31) : (Int32.ofInt (toI (UInt32.ofNat d))).toInt = d := by
+  show (Int32.ofInt ((UInt32.ofNat d).toNat : Int)).toInt = _
+  rw [UInt32.toNat_ofNat', Nat.mod_eq_of_lt (by omega), Int32.toInt_ofInt_of_le (by omega) (by omega)]
+
 end Dec.C08GenRoundIntegral
